@@ -44,7 +44,7 @@ META = {
 STATIC = ["C03/LIR.v", "C03/VSL.v", "C03/ArithSpec.v", "C03/WordArith.v", "C03/TypeLemmas.v", "C03/ArithModel.v",
           "C03/TieBase.v", "C03/VSubst.v", "C03/TieModels.v", "C03/LegacyExact.v", "C03/VenomExact.v",
           "C03/ConvSpec.v", "C03/ConvModel.v", "C03/ConvExact.v", "C03/VConvExact.v", "C03/ConvTie.v",
-          "C03/PowExact.v", "C03/PowTie.v"]
+          "C03/PowExact.v", "C03/PowTie.v", "C03/UnsafeExact.v", "C03/UnsafeTie.v"]
 # regenerated templates + the ties + the property theorems about the REAL templates
 LEGACY = ["C03/GenLegacy.v", "C03/TieLegacy.v", "C03/PropsLegacy.v"]
 VENOM = ["C03/GenVenom.v", "C03/TieVenom.v", "C03/PropsVenom.v"]
@@ -52,6 +52,8 @@ CONVL = ["C03/GenConvLegacy.v", "C03/TieConvLegacy.v", "C03/PropsConvLegacy.v"]
 CONVV = ["C03/GenConvVenom.v", "C03/TieConvVenom.v", "C03/PropsConvVenom.v"]
 POWL = ["C03/GenPowLegacy.v", "C03/TiePowLegacy.v", "C03/PropsPowLegacy.v"]
 POWV = ["C03/GenPowVenom.v", "C03/TiePowVenom.v", "C03/PropsPowVenom.v"]
+UNSL = ["C03/GenUnsafeLegacy.v", "C03/TieUnsafeLegacy.v", "C03/PropsUnsafeLegacy.v"]
+UNSV = ["C03/GenUnsafeVenom.v", "C03/TieUnsafeVenom.v", "C03/PropsUnsafeVenom.v"]
 
 OPSYM = {"AAdd": "+", "ASub": "-", "AMul": "*", "ADiv": "//", "AMod": "%", "AUSub": "-"}
 
@@ -607,6 +609,135 @@ def mismatching_pows(kind):
         return None
 
 
+# ------------------------------------------------------------------ (5) unchecked operations
+UNSAFE_PRELUDE = COQ_PRELUDE + """From Verif Require Import C03.UnsafeExact.
+(* umath without astronomically large intermediate values *)
+Definition umath_safe (o : uop) (x y : Z) : Z :=
+  match o with
+  | UPowMod => powmod x y W
+  | UShl => if 256 <=? y then 0 else x * 2 ^ y
+  | UShr => if 256 <=? y then (if x <? 0 then -1 else 0) else x / 2 ^ y
+  | _ => umath o x y
+  end.
+Definition uspec_row (T : nty) (o : uop) (P : list (Z * Z)) : list Z :=
+  map (fun p => wrap (twrap T (umath_safe o (fst p) (snd p)))) P.
+Definition ulev_row (t : lir) (P : list (Z * Z)) : list Z :=
+  map (fun p => oc (leval [("x"%string, wrap (fst p)); ("y"%string, wrap (snd p))] t)) P.
+Definition uvev_row (t : vtemplate) (P : list (Z * Z)) : list Z :=
+  map (fun p => oc (vrun [("%2"%string, wrap (snd p)); ("%1"%string, wrap (fst p))] t)) P.
+"""
+SHIFT_GRID = [0, 1, 8, 255, 256, 257, 2**255, 2**256 - 1]
+
+
+def plist(cs):
+    return "[" + "; ".join(f"({X.zl(x)}, {X.zl(y)})" for x, y in cs) + "]"
+
+
+def unsafe_cases(uop, ty, rnd, size):
+    g = type_grid(ty, rnd, size)
+    if uop in ("UShl", "UShr"):
+        return [(x, y) for x in g for y in SHIFT_GRID]
+    if uop == "UPowMod":
+        return [(x, y) for x in g[:8] for y in [0, 1, 2, 3, 255, 256, 257, 2**255 + 1, 2**256 - 1]]
+    return [(x, y) for x in g for y in g]
+
+
+def unsafe_differential(ctx, templates, kind, sample=None, force_idx=()):
+    rnd = ctx.rng(kind + "unsafe")
+    force_idx = set(force_idx)
+    idx = [j for j in range(len(templates)) if j in force_idx or sample is None or rnd.random() < sample]
+    chain = Chain("cancun")
+    rows, meta = [], []
+    n_eval = 0
+    for j in idx:
+        uop, ty, n = templates[j]
+        cs = unsafe_cases(uop, ty, rnd, 7)
+        code = ir_snippet_code(n) if kind == "legacy" else venom_snippet_code(n)
+        obs = run_code(chain, code, cs)
+        n_eval += len(cs)
+        pl = plist(cs)
+        rows.append({"spec": f"uspec_row {X.nty(*ty)} {uop} {pl}",
+                     "model": (f"ulev_row {X.lir_term(n)} {pl}" if kind == "legacy" else f"uvev_row {X.vtemplate_term(*n)} {pl}"),
+                     "obs": obs})
+        meta.append((uop, ty, n, cs, obs))
+    res = compare_rows(UNSAFE_PRELUDE, rows, "c03uns" + kind, shard=40)
+    failing, bad_model = [], []
+    for (uop, ty, n, cs, obs), (sm, mm) in zip(meta, res):
+        for i, e, _ in sm[:1]:
+            failing.append((uop, ty, cs[i] if 0 <= i < len(cs) else ("?", "?"), e, obs[i] if 0 <= i < len(obs) else None, n))
+        for i, e, _ in mm[:1]:
+            bad_model.append((uop, ty, cs[i] if 0 <= i < len(cs) else ("?", "?"), e, obs[i] if 0 <= i < len(obs) else None))
+    ctx.corr[kind + "_unsafe_cases"] = n_eval
+    return n_eval, failing, bad_model
+
+
+def mismatching_unsafes(kind):
+    gen, fn, tbl = ("GenUnsafeLegacy", "utie_one", "legacy_unsafes") if kind == "legacy" else ("GenUnsafeVenom", "vutie_one", "venom_unsafes")
+    try:
+        out = coqrun.eval_zlists(f"From Verif Require Import C03.TieModels C03.UnsafeTie C03.{gen}.\n",
+                                 [f"bad_idx {fn} 0 {tbl}"], "c03badu" + kind, timeout=300)
+        return out[0]
+    except Exception:  # noqa
+        return None
+
+
+UNSAFE_SRC = {"UAdd": "unsafe_add(x, y)", "USub": "unsafe_sub(x, y)", "UMul": "unsafe_mul(x, y)", "UDiv": "unsafe_div(x, y)",
+              "UAnd": "x & y", "UOr": "x | y", "UXor": "x ^ y", "UShl": "x << y", "UShr": "x >> y", "UPowMod": "pow_mod256(x, y)"}
+
+
+def unsafe_glue(ctx, tys, cfgs):
+    """the unchecked builtins / operators through the full compiler vs the Coq spec"""
+    rnd = ctx.rng("unsafeglue")
+    groups = {}
+    n_eval = 0
+    tys = [t for t in tys if not t[2]]
+    cases = {}
+    for cfg in cfgs:
+        chain = Chain(cfg.evm)
+        for ty in tys:
+            t = tyname(ty)
+            ops = ["UAdd", "USub", "UMul", "UDiv", "UAnd", "UOr", "UXor"] + (["UShl", "UShr"] if ty[0] == 32 else []) + \
+                  (["UPowMod"] if ty[0] == 32 and not ty[1] else [])
+            src = ""
+            for uop in ops:
+                yt = "uint256" if uop in ("UShl", "UShr") else t
+                src += f"@external\ndef f{uop}(x: {t}, y: {yt}) -> {t}:\n    return {UNSAFE_SRC[uop]}\n\n"
+            try:
+                out = compile_src(src, cfg, formats=("bytecode", "method_identifiers"))
+            except Exception as e:  # noqa
+                ctx.violation("correspondence-broken", f"unchecked-ops probe does not compile under {cfg.name}",
+                              {"source": src, "config": cfg.name, "error": f"{type(e).__name__}: {e}"[:600]})
+                continue
+            addr = chain.deploy(bytes.fromhex(out["bytecode"][2:]))
+            sels = {sig.split("(")[0]: int(h, 16).to_bytes(4, "big") for sig, h in out["method_identifiers"].items()}
+            for uop in ops:
+                if (ty, uop) not in cases:
+                    cases[(ty, uop)] = unsafe_cases(uop, ty, rnd, 7)
+                cs = cases[(ty, uop)]
+                datas = [sels[f"f{uop}"] + word(x) + word(y) for x, y in cs]
+                obs = [call_word(chain, addr, dt) for dt in datas]
+                n_eval += len(cs)
+                g = groups.setdefault((ty, uop), {"spec": f"uspec_row {X.nty(*ty)} {uop} {plist(cs)}", "cs": cs, "runs": []})
+                g["runs"].append((cfg, obs, datas, src))
+    keys = list(groups)
+    rows = [{"spec": groups[k]["spec"], "multi": [r[1] for r in groups[k]["runs"]]} for k in keys]
+    res = compare_rows(UNSAFE_PRELUDE, rows, "c03unsglue", shard=60)
+    failing = []
+    for (ty, uop), (sm, _) in zip(keys, res):
+        seen = set()
+        for i, e, m in sm:
+            if m in seen:
+                continue
+            seen.add(m)
+            cfg, obs, datas, src = groups[(ty, uop)]["runs"][m]
+            cs = groups[(ty, uop)]["cs"]
+            failing.append({"type": tyname(ty), "operation": UNSAFE_SRC[uop], "config": cfg.name,
+                            "args": [str(cs[i][0]), str(cs[i][1])], "expected": hex(e),
+                            "observed": "revert" if obs[i] == -1 else hex(obs[i]), "calldata": datas[i].hex(), "source": src})
+    ctx.corr["unsafe_glue_cases"] = n_eval
+    return n_eval, failing
+
+
 # ------------------------------------------------------------------ main
 def choose_types(ctx, all_tys):
     if ctx.tier == "thorough":
@@ -657,12 +788,21 @@ def generate_and_build(ctx):
         (COQ / "C03" / "GenPowVenom.v").write_text(text)
     except Exception as e:  # noqa
         gen_err = (gen_err or "") + f" pow export: {type(e).__name__}: {e}"
+    luns, vuns = [], []
+    try:
+        text, luns = X.gen_unsafe("legacy")
+        (COQ / "C03" / "GenUnsafeLegacy.v").write_text(text)
+        text, vuns = X.gen_unsafe("venom")
+        (COQ / "C03" / "GenUnsafeVenom.v").write_text(text)
+    except Exception as e:  # noqa
+        gen_err = (gen_err or "") + f" unsafe export: {type(e).__name__}: {e}"
     if any(X.CRASHES.get(k) for k in ("legacy", "venom")):
         ctx.extra["convert_generator_crashes"] = {k: v[:10] for k, v in X.CRASHES.items() if v}
     ctx.extra["family_size"] = {"legacy_templates": len(ltempl), "venom_templates": len(vtempl), "numeric_types": 65,
                                 "legacy_clamps": 65, "venom_clamps": 65,
                                 "legacy_converts": len(lconv), "venom_converts": len(vconv), "word_types": 103,
-                                "legacy_pows": len(lpow), "venom_pows": len(vpow)}
+                                "legacy_pows": len(lpow), "venom_pows": len(vpow),
+                                "legacy_unchecked": len(luns), "venom_unchecked": len(vuns)}
 
     # ---- proofs: static part, then the legacy and venom chains concurrently (content-keyed .vo reuse)
     b0 = ctx.coq_build_cached(STATIC)
@@ -671,7 +811,9 @@ def generate_and_build(ctx):
            "convl": {"ok": False, "file": "C03/GenConvLegacy.v", "failed_lemma": None, "out": gen_err or ""},
            "convv": {"ok": False, "file": "C03/GenConvVenom.v", "failed_lemma": None, "out": gen_err or ""},
            "powl": {"ok": False, "file": "C03/GenPowLegacy.v", "failed_lemma": None, "out": gen_err or ""},
-           "powv": {"ok": False, "file": "C03/GenPowVenom.v", "failed_lemma": None, "out": gen_err or ""}}
+           "powv": {"ok": False, "file": "C03/GenPowVenom.v", "failed_lemma": None, "out": gen_err or ""},
+           "unsl": {"ok": False, "file": "C03/GenUnsafeLegacy.v", "failed_lemma": None, "out": gen_err or ""},
+           "unsv": {"ok": False, "file": "C03/GenUnsafeVenom.v", "failed_lemma": None, "out": gen_err or ""}}
     if b0["ok"]:
         ths = []
         if ltempl:
@@ -686,18 +828,25 @@ def generate_and_build(ctx):
             ths.append(threading.Thread(target=build_chain, args=(ctx, POWL, STATIC, res, "powl")))
         if vpow:
             ths.append(threading.Thread(target=build_chain, args=(ctx, POWV, STATIC, res, "powv")))
+        if luns:
+            ths.append(threading.Thread(target=build_chain, args=(ctx, UNSL, STATIC, res, "unsl")))
+        if vuns:
+            ths.append(threading.Thread(target=build_chain, args=(ctx, UNSV, STATIC, res, "unsv")))
         for t in ths:
             t.start()
         for t in ths:
             t.join()
     bl, bv, bcl, bcv, bpl, bpv = res["legacy"], res["venom"], res["convl"], res["convv"], res["powl"], res["powv"]
+    bul, buv = res["unsl"], res["unsv"]
     ctx.log(f"coq done {time.time()-t0:.0f}s static={b0['ok']} legacy={bl['ok']} venom={bv['ok']} "
-            f"convert-legacy={bcl['ok']} convert-venom={bcv['ok']} pow-legacy={bpl['ok']} pow-venom={bpv['ok']}")
-    if all(b["ok"] for b in (bl, bv, bcl, bcv, bpl, bpv)):
-        ctx.extra["syntactic_matches"] = len(ltempl) + len(vtempl) + 130 + len(lconv) + len(vconv) + len(lpow) + len(vpow)
+            f"convert-legacy={bcl['ok']} convert-venom={bcv['ok']} pow-legacy={bpl['ok']} pow-venom={bpv['ok']} "
+            f"unchecked-legacy={bul['ok']} unchecked-venom={buv['ok']}")
+    if all(b["ok"] for b in (bl, bv, bcl, bcv, bpl, bpv, bul, buv)):
+        ctx.extra["syntactic_matches"] = (len(ltempl) + len(vtempl) + 130 + len(lconv) + len(vconv) + len(lpow) + len(vpow)
+                                          + len(luns) + len(vuns))
 
     return dict(gen_err=gen_err, ltempl=ltempl, vtempl=vtempl, lconv=lconv, vconv=vconv, vextra=vextra, lpow=lpow, vpow=vpow,
-                b0=b0, bl=bl, bv=bv, bcl=bcl, bcv=bcv, bpl=bpl, bpv=bpv)
+                luns=luns, vuns=vuns, b0=b0, bl=bl, bv=bv, bcl=bcl, bcv=bcv, bpl=bpl, bpv=bpv, bul=bul, buv=buv)
 
 
 def prebuild(ctx):
@@ -711,6 +860,7 @@ def run(ctx):
     gen_err, ltempl, vtempl, lconv, vconv, vextra, lpow, vpow = (g[k] for k in
         ("gen_err", "ltempl", "vtempl", "lconv", "vconv", "vextra", "lpow", "vpow"))
     b0, bl, bv, bcl, bcv, bpl, bpv = (g[k] for k in ("b0", "bl", "bv", "bcl", "bcv", "bpl", "bpv"))
+    luns, vuns, bul, buv = g["luns"], g["vuns"], g["bul"], g["buv"]
 
     # ---- correspondence / search
     found = False
@@ -789,6 +939,40 @@ def run(ctx):
                               {"type": tyname(ty), "literal": str(lit), "x": str(c[0]), "y": str(c[1]), "coq": str(l), "evm": str(g)})
     ctx.log(f"pow differential done {time.time()-t0:.0f}s")
 
+    # ---- unchecked operations (must wrap exactly)
+    for kind, templ, b in (("legacy", luns, bul), ("venom", vuns, buv)):
+        if not templ or not b0["ok"]:
+            continue
+        if b["ok"]:
+            frac, force = (0.04 if ctx.tier == "quick" else 0.6), ()
+        else:
+            bad = mismatching_unsafes(kind)
+            ctx.log(f"search unchecked {kind}: {None if bad is None else len(bad)} templates differ from the model")
+            frac, force = (0.5, ()) if bad is None else (0.08, bad[::max(1, len(bad) // 200)])
+        n, failing, bad_model = unsafe_differential(ctx, templ, kind, frac, force)
+        total += n
+        for uop, ty, c, e, g_, node in failing[:5]:
+            found = True
+            tstr = str(node) if kind == "legacy" else "; ".join(str(i).strip() for i in node[0]) + f" -> {node[1]}"
+            ctx.violation(
+                "failing-input", f"{kind} template of {UNSAFE_SRC[uop]} for {tyname(ty)} does not wrap exactly modulo 2**bits",
+                {"generator": f"{kind} front end, {UNSAFE_SRC[uop]} on {tyname(ty)} operands in variables x, y",
+                 "template": " ".join(tstr.split()), "x": str(c[0]), "y": str(c[1]), "expected": hex(e),
+                 "observed_on_evm": "revert" if g_ == -1 else (hex(g_) if g_ is not None else "?"),
+                 "how": "template compiled by the real back end + assembler, executed on pyrevm"},
+                key=f"{kind}-unchecked:{uop}:{tyname(ty)}")
+        for uop, ty, c, l, g_ in bad_model[:5]:
+            if not found:
+                ctx.violation("correspondence-broken", f"Coq evaluator disagrees with the real back end + EVM on an exported {kind} unchecked-op template",
+                              {"op": uop, "type": tyname(ty), "x": str(c[0]), "y": str(c[1]), "coq": str(l), "evm": str(g_)})
+    n, ufail = unsafe_glue(ctx, tys[:4] if ctx.tier == "quick" else tys, quick_glue_configs() if ctx.tier == "quick" else configs("quick"))
+    total += n
+    for f in ufail[:8]:
+        found = True
+        ctx.violation("failing-input", f"{f['operation']} on {f['type']} under {f['config']} does not wrap exactly", f,
+                      key=f"unchecked-glue:{f['operation']}:{f['type']}:{f['config']}")
+    ctx.log(f"unchecked-ops differentials done {time.time()-t0:.0f}s")
+
     # ---- conversions: template differential (+ Search), glue probes, venom-only pairs
     for kind, templ, b in (("legacy", lconv, bcl), ("venom", vconv, bcv)):
         if not templ or not b0["ok"]:
@@ -856,7 +1040,7 @@ def run(ctx):
     if gen_err and not found:
         ctx.violation("translator-rejected", "template export failed: " + gen_err, {"error": gen_err})
     for b, what in ((b0, "static"), (bl, "legacy"), (bv, "venom"), (bcl, "convert-legacy"), (bcv, "convert-venom"),
-                    (bpl, "pow-legacy"), (bpv, "pow-venom")):
+                    (bpl, "pow-legacy"), (bpv, "pow-venom"), (bul, "unchecked-legacy"), (buv, "unchecked-venom")):
         if not b["ok"] and not found and not (gen_err and what != "static"):
             ctx.violation("theorem-broken", f"{b.get('failed_lemma')} in {b.get('file')} ({what})",
                           {"theorem": b.get("failed_lemma"), "file": b.get("file"), "coq_output": (b.get("out") or "")[-1500:]})
